@@ -55,6 +55,14 @@ PASSES = {
     "C15": [("C15", ("main",), ("TraceMem.tla", "TraceMem.cfg"), 1.0, False, None),
             ("C10", ("main",), SECP, 0.15, False, {"frame", "invalid-frame"})],   # element / scalar arguments keep their value
 }
+# Sequential properties additionally get a short concurrent pass (the C16 generator in a -race binary): a call
+# that returns a wrong value only while other goroutines are inside the library (package-level scratch, pooled
+# buffers) still violates "Add yields P+Q", "Encode returns ...".  Only disagreements at actions the property owns
+# count there; races and foreign disagreements are C16's business and are ignored in this pass.
+CONC_LITE = {"C01", "C02", "C03", "C04", "C05", "C06", "C07", "C08", "C09", "C13", "C14"}
+# harness wrappers that stand for several actions
+WRAPPER_OPS = {"EDecodeForm": {"EDecode", "EUnmarshal", "EDecodeComp", "EDecodeUnc", "EDecodeHex"},
+               "SDecodeForm": {"SDecode", "SUnmarshal", "SDecodeHex"}}
 # properties whose histories can be re-executed call by call from a replay file
 SCENARIO_PROPS = TRACE_PROPS - {"C15", "C16", "C11", "C12", "C19"}
 
@@ -394,10 +402,12 @@ def run_mc_stage(prop, tier, specdir, work):
 
 def record_pass(prop, gname, groups, tier, seed, scale, work, tdir):
     """Build the harness for these file groups, run generator gname, return its summary."""
-    race = prop in CONCURRENT_PROPS
+    race = prop in CONCURRENT_PROPS or gname == "C16"
     binary, accessor = build_harness(work, race=race, groups=groups)
     cmd = [binary, "-prop", gname, "-out", tdir, "-seed", str(seed), "-tier", tier,
            "-shards", str(NCPU * (4 if tier == "thorough" else 1)), "-scale", str(scale)]
+    if gname == "C16" and prop != "C16":
+        cmd += ["-focus", prop]          # the concurrent pass of a sequential property: its own actions only
     env = dict(GOENV)
     if race:
         env["GORACE"] = "halt_on_error=0 log_path=%s" % os.path.join(work, "race")
@@ -418,8 +428,10 @@ def record_pass(prop, gname, groups, tier, seed, scale, work, tdir):
             keep = os.path.join(VERIF, "replays", "%s_%s_%d_race.txt" % (prop, tier, seed))
             os.makedirs(os.path.dirname(keep), exist_ok=True)
             open(keep, "w").write("\n==================\n".join(reports[:20]))
+            # which harness call wrappers (= which API actions) appear in the stacks of the racing accesses
+            wrappers = sorted(set(re.findall(r"main\.\(\*M\)\.(\w+)\(", "\n".join(reports))) - {"emit", "obs", "emitRaw", "witnessFor"})
             ev = {"op": "RaceReport", "count": len(reports), "where": [l.strip() for l in reports[0].splitlines() if ".go:" in l][:6],
-                  "report_file": keep, "obs": last["obs"]}
+                  "wrappers": wrappers, "report_file": keep, "obs": last["obs"]}
             open(f0, "a").write(json.dumps(ev) + "\n")
             summary["events"] += 1
     return summary
@@ -517,7 +529,9 @@ def check_trace_property(prop, tier, seed, work, replay=None, scale=1.0):
     t0 = time.time()
     specdir = copy_spec(work)
     mc_results = run_mc_stage(prop, tier, specdir, work)
-    passes = PASSES.get(prop, [(prop, ("main",), SECP, 1.0, False, None)])
+    passes = list(PASSES.get(prop, [(prop, ("main",), SECP, 1.0, False, None)]))
+    if prop in CONC_LITE:
+        passes.append(("C16", ("main",), SECP, 0.25, True, "OWNED"))
     jobs = []          # (trace file, module, cfg, reasons filter)
     summaries = []
     notes = []
@@ -561,7 +575,7 @@ def check_trace_property(prop, tier, seed, work, replay=None, scale=1.0):
 
     if prop == "C10" and not replay:
         # behaviours of the toy abstract machine, generated by TLC, executed on the real library
-        scen = tlc_scenarios(specdir, work, seed, int((400 if tier == "thorough" else 48) * scale) or 1, 30)
+        scen = tlc_scenarios(specdir, work, seed, int((160 if tier == "thorough" else 48) * scale) or 1, 30)
         summary = run_scenarios(prop, scen, work, "sim")
         summaries.append(summary)
         jobs += [(f, SECP[0], SECP[1], None, "C10") for f in summary["files"]]
@@ -593,6 +607,20 @@ def check_trace_property(prop, tier, seed, work, replay=None, scale=1.0):
             kf = [f for f in findings if matches_finding(f, prop, rec, event)]
             if kf:
                 known.append((kf[0], rec))
+            elif reasons == "OWNED":
+                if rec["op"] == "RaceReport":
+                    # a data race while only this property's actions (and the observers) ran concurrently: it is this
+                    # property's if one of its actions is on the stack of a racing access
+                    ops = set()
+                    for w in event.get("wrappers", []):
+                        ops |= WRAPPER_OPS.get(w, {w})
+                    mine = sorted(o for o in ops if prop in OWNERS.get(o, set()))
+                    if mine:
+                        rec["detail"] = "data race with %s on the stack of a racing access (%s)" % ("/".join(mine), "; ".join(event.get("where", [])[:2]))
+                        violations.append(rec)
+                elif prop in OWNERS.get(rec["op"], set()):
+                    rec["detail"] = "while other goroutines were calling the library; " + rec["detail"]
+                    violations.append(rec)
             elif reasons is not None:
                 (violations if rec["reason"] in reasons else inconclusive).append(rec)
             elif rec["reason"] == "isidentity-observer":
